@@ -102,6 +102,22 @@ def apply_fault(fault, data, payload=None):
             return wire.pkt(j2b(fault[1])), None
         if k == 'pad':
             return wire.pkt(payload, pad=fault[1]), None
+    if k.startswith('ssh1_'):
+        # SSH-1 packet rebuilt with a valid checksum around a changed type / body
+        t, body = wire.ssh1_parse_packet(data)
+        if k == 'ssh1_trunc':
+            return wire.ssh1_packet(t, body[:fault[1]]), None
+        if k == 'ssh1_type':
+            return wire.ssh1_packet(fault[1] & 0xff, body), None
+        if k == 'ssh1_set_u16':
+            b = bytearray(body)
+            if fault[1] + 2 <= len(b):
+                b[fault[1]:fault[1] + 2] = struct.pack('>H', fault[2] & 0xffff)
+            return wire.ssh1_packet(t, bytes(b)), None
+        if k == 'ssh1_append':
+            return wire.ssh1_packet(t, body + j2b(fault[1])), None
+        if k == 'ssh1_body':
+            return wire.ssh1_packet(t, j2b(fault[1])), None
     raise ValueError('unknown fault %r' % (fault,))
 
 
